@@ -90,6 +90,14 @@ def one_replacement(ctx, host, e, repl, reqs, meta, alias=False):
     if alias:
         # the replacement IS the host graph object (a recursive rule's right-hand side rewritten with itself): the result must be the
         # one for a copy of the graph as it was (D52: RuntimeError 'dictionary changed size during iteration', host half rewritten)
+        if ctx.rng.random() < 0.5:
+            # ... and the host may be a FactorGraph (what derive() rewrites): its own copy() is then the one replace_edge relies on
+            g = fggs.FactorGraph.from_graph(g)
+            if ctx.rng.random() < 0.6:
+                lab = ctx.rng.choice(list(g.nodes())).label if list(g.nodes()) else (e.label.type[0] if e.label.type else None)
+                if lab is not None:
+                    g.add_node(Node(lab))        # an isolated internal node
+            ctx.count('replace.aliased-replacement.factorgraph-host')
         repl = g
         ctx.count('replace.aliased-replacement')
     c = Coder()
@@ -99,7 +107,13 @@ def one_replacement(ctx, host, e, repl, reqs, meta, alias=False):
     live_ids = {n.id for n in before_nodes} | {x.id for x in before_edges} | {n.id for n in repl.nodes()} | {x.id for x in repl.edges()}
     case = dict(graph=genc, edge=eenc, replacement=renc, aliased=alias)
     if alias:
-        repl_call, repl = g, g.copy()      # the checks below read the replacement as it was before the call
+        # the checks below read the replacement as it was before the call: a snapshot taken node by node and edge by edge, not through
+        # the library's copy() (a copy() that loses something would otherwise be the reference)
+        snap = Graph()
+        for v_ in g.nodes(): snap.add_node(v_)
+        for x_ in g.edges(): snap.add_edge(x_)
+        snap.ext = g.ext
+        repl_call, repl = g, snap
     else:
         repl_call = repl
     try:
